@@ -28,6 +28,15 @@ def step : List String → String
     match w.toNat?, u.toNat?, m.toNat? with
     | some w, some u, some m => match endBlockGas w u m with | some g => toString g | none => "none"
     | _, _, _ => "bad-op"
+  | ["gw", mx, gs] =>
+    -- GasWantedDecorator: a transaction declaring more than the block gas limit is refused; what the others declare is
+    -- added up (the block gas limit is 2^64 − 1 when MaxGas = −1)
+    match mx.toInt?, parseNats gs with
+    | some mx, some gs =>
+      let limit : Nat := if mx < 0 then 2 ^ 64 - 1 else mx.toNat
+      let ok := gs.filter (· ≤ limit)
+      s!"{ok.foldl (· + ·) 0} rejected={gs.length - ok.length}"
+    | _, _ => "bad-op"
   | "pv" :: rest =>
     match parseParams rest with
     | some p => if p.valid then "ok" else "err"
